@@ -183,7 +183,7 @@ def equiv(a, b, objs, ty=None, S=None, depth=0):
 
 # ---------------------------------------------------------------------------------------------- generators
 
-MODELLED_HAND = {"Date": 0, "Rectangle": 1, "Matrix": 2, "Action": 3, "NameTree<Primitive>": 4}
+MODELLED_HAND = {"Date": 0, "Rectangle": 1, "Matrix": 2, "Action": 3, "NameTree<Primitive>": 4, "PagesRc": 5}
 
 
 class Gen:
@@ -322,7 +322,8 @@ class Gen:
         if k == 6:
             return r.choice([1, 2.5])
         if k == 7:
-            return [self.any_prim(depth + 1) for _ in range(r.randrange(3))]
+            # null is a legal array element and has to keep its position
+            return [None if r.random() < 0.2 else self.any_prim(depth + 1) for _ in range(r.randrange(4))]
         return {k2: self.any_prim(depth + 1) for k2 in r.sample(["a", "b", "Type", "K"], r.randrange(3))}
 
     def prim(self, t, depth=0, allow_ref=True):
@@ -364,6 +365,13 @@ class Gen:
             if k == 0:
                 return None if r.random() < 0.5 else []
             items = [self.prim(t[1:], depth + 1, allow_ref=False) for _ in range(r.choice([1, 1, 2, 3]))]
+            if t[1] == 7:
+                # an array of untyped primitives: null elements (top level and nested) keep their positions
+                items = [None if r.random() < 0.3 else x for x in items]
+                if r.random() < 0.3:
+                    items.insert(r.randrange(len(items) + 1), [1, None, self.any_prim(1)])
+                if not (k == 1 and len(items) == 1 and items[0] is not None and not isinstance(items[0], (list, Ref))):
+                    return self.obj(items) if (k == 2 and allow_ref) else items
             items = [x for x in items if x is not None] if t[1] in (20, 10) else items
             if any(x is None for x in items):
                 return []
